@@ -236,7 +236,67 @@ def gen_history(seed):
             twin.pop("data_ref", None)
             twin.pop("mutate", None)
             hist[i + 1] = twin
+    # host-language twins: a call, then the same call with one leaf replaced by a value that Python
+    # holds equal (True == 1 == 1.0, False == 0 == 0.0 == -0.0, equal hashes too) but JSON does not;
+    # likewise dict keys. Whatever is keyed by the Python object rather than by the JSON text confuses them
+    for i in range(len(hist) - 1):
+        if r.chance(1, 5) and hist[i]["entry"] == "apply":
+            t = py_twin(r, hist[i])
+            if t is not None:
+                hist[i + 1] = t
     return {"calls": hist, "pool": pool}
+
+
+_PY_EQUAL = [[True, 1, 1.0], [False, 0, 0.0, -0.0]]
+
+
+def _twin_value(r, v, budget):
+    """Copy of v with (at most) one scalar leaf swapped for a Python-equal value of another JSON type."""
+    if budget[0] <= 0:
+        return v
+    if isinstance(v, (bool, int, float)) and not isinstance(v, str):
+        for grp in _PY_EQUAL:
+            for g in grp:
+                if type(g) is type(v) and g == v and repr(g) == repr(v):
+                    others = [x for x in grp if not (type(x) is type(v) and repr(x) == repr(v))]
+                    budget[0] -= 1
+                    return r.pick(others)
+        return v
+    if isinstance(v, list):
+        idx = list(range(len(v)))
+        out = list(v)
+        for i in idx:
+            out[i] = _twin_value(r, v[i], budget)
+            if budget[0] <= 0:
+                break
+        return out
+    if isinstance(v, dict):
+        out = {}
+        for k, x in v.items():
+            out[k] = _twin_value(r, x, budget) if budget[0] > 0 else x
+        return out
+    return v
+
+
+def py_twin(r, call):
+    which = "rule" if r.chance(2, 3) or not call.get("data_given") else "data"
+    budget = [1]
+    t = dict(call)
+    t.pop("data_ref", None)
+    t.pop("mutate", None)
+    t[which] = _twin_value(r, call.get(which), budget)
+    if budget[0] == 1:
+        # no such leaf: plant one (a comparison against 1 / True keeps most rules meaningful)
+        if which == "rule":
+            base = dict(call)
+            base.pop("data_ref", None)
+            base.pop("mutate", None)
+            lit = r.pick([1, True, 1.0, 0, False, 0.0])
+            call["rule"] = {"===": [call.get("rule"), lit]}
+            t["rule"] = {"===": [call["rule"]["==="][0], r.pick([x for g in _PY_EQUAL for x in g if x == lit and not (type(x) is type(lit) and repr(x) == repr(lit))])]}
+        else:
+            return None
+    return t
 
 
 # ---------------------------------------------------------------------------------------------
